@@ -50,6 +50,7 @@ class tt_dimscheck(Contract):
         if dims is not None:
             P = dims.shape[0]
             yield "negative-dim", S.exists(0, P, lambda q: dims.fn(q) < 0)
+            yield "dim-out-of-range", S.exists(0, P, lambda q: dims.fn(q) >= Nn)
         elif ex is not None:
             E = ex.shape[0]
             yield "exclude-out-of-range", S.exists(0, E, lambda q: S.Or(ex.fn(q) < 0, ex.fn(q) >= Nn))
@@ -81,6 +82,7 @@ class tt_dimscheck(Contract):
             yield "len-equals-len-dims", S.eq(L, P)
             yield "each-sdim-is-a-dim", S.forall(0, L, lambda i: S.exists(0, P, lambda j: sdims.fn(i) == dims.fn(j)))
             yield "each-dim-is-an-sdim", S.forall(0, P, lambda j: S.exists(0, L, lambda i: sdims.fn(i) == dims.fn(j)))
+            yield "sdims-in-range", S.forall(0, L, lambda i: S.And(0 <= sdims.fn(i), sdims.fn(i) < Nn))
         elif ex is not None:
             E = ex.shape[0]
             yield "sdims-strictly-increasing", S.forall(0, L - 1, lambda i: sdims.fn(i) < sdims.fn(i + 1))
